@@ -43,6 +43,13 @@ def check(ctx, report):
     report.rule('C08.R12', 'DNSKEY records of every algorithm of the registry, in the key format of their RFC, are read completely and composed back to the same octets')
     dnskey_round_trip(ctx, report)
     report.floor('C08.R12', 30, 'evaluated DNSKEY records')
+    # the length a record parser demands before it starts is at most the length of the shortest record of its layout (the root
+    # name as signer, an empty signature): conformant RDATA is not refused as too short (rule shared with C04.R4)
+    from .c04 import header_constants
+    report.rule('C08.R13', 'the minimum length a record parser demands up front does not exceed the shortest RDATA of its layout')
+    from ..spec import load_spec
+    minimum = {k: (v['min_rdata'], v.get('min_rdata_ref', '')) for k, v in load_spec('dns.json')['structures'].items() if 'min_rdata' in v}
+    header_constants(ctx, report, RULE='C08.R13', scope=('cryptoparser.dnsrec.',), floor=4, spec_minimum=minimum)
     txt_chunks(ctx, report)
     complete_consumption(ctx, report)
     # RRSIG inception / expiration (32 bit seconds) and the DNSKEY flag word go through the shared primitives; RSA exponent and
